@@ -28,8 +28,20 @@ def _key(sd, uid, multi):
     return f"{sd}{SEP}{uid}" if multi else str(uid)
 
 
+SIZE_MODULES = ["splink.internals.edge_metrics", "splink.internals.graph_metrics", "splink.internals.linker_components.clustering",
+                "splink.internals.connected_components", "splink.internals.clustering"]
+
+
 def run_impl(case: dict) -> dict:
-    """Run the real Splink code on one case.  Everything is returned in node-index space."""
+    """Run the real Splink code on one case (optionally with the code's module-level size thresholds scaled down)."""
+    from harness import impl
+
+    with impl.shrunk_constants(SIZE_MODULES, case.get("shrink_consts")):
+        return _run_impl(case)
+
+
+def _run_impl(case: dict) -> dict:
+    """Everything is returned in node-index space."""
     from splink import Linker, SettingsCreator
 
     from harness import impl
@@ -407,6 +419,16 @@ def gen_cases(ctx: core.Ctx) -> list[dict]:
             cases.append(explicit_threshold_variant(rng, cases[-1]))
         if len(cases) % 7 == 0:
             cases.append(fine_threshold_variant(rng, cases[-1]))
+    # (4) size thresholds inside the code (chunk / batch sizes as module-level constants) scaled down to 2 or 3, so that these small
+    # graphs lie beyond them; only when the anchored modules HAVE such constants (the pinned tree has none: then nothing is added)
+    from harness import impl
+
+    consts = impl.size_constants(SIZE_MODULES)
+    ctx.count("size_constants_in_code", ", ".join(sorted(consts)) or "none")
+    if consts:
+        base = [c for c in cases if 4 <= len(c["ids"]) <= 40]
+        for c in rng.sample(base, min(len(base), ctx.budget(120, 600))):
+            cases.append(dict(c, shrink_consts=rng.choice([2, 3, 5]), tag=c["tag"] + "+shrunk-consts", shuffle=rng.randrange(1 << 30)))
     return cases
 
 
